@@ -196,7 +196,8 @@ def b106 (e : Env) : M (Option PRaw) := do
 /-! ## B107 hardcoded_password_default -/
 def b107 (e : Env) : M (Option PRaw) := do
   let some args := e.node.kid? "args" | throw .attributeError
-  let params := args.kidList "args"
+  -- `args.posonlyargs + args.args`: defaults belong to the last positional parameters
+  let params := args.kidList "posonlyargs" ++ args.kidList "args"
   let defaults := args.kidList "defaults"
   -- `[None] * (len(args) - len(defaults))`: a negative count gives no padding
   let pad := params.length - defaults.length
